@@ -20,12 +20,12 @@ import (
 )
 
 // openPaths returns the four ways of turning a stored file root into a node.
-func openPaths(c *mon.Case, st *store.Store, root cid.Cid) map[string]ipld.Node {
+func openPaths(c *mon.Case, st *store.Store, root cid.Cid, contentLen int) map[string]ipld.Node {
 	out := map[string]ipld.Node{}
 	// rotate over link-system configurations: plain, reifier table with other entries, NodeReifier installed
 	lsCfgSalt++
 	cfg := lsCfgSalt % 3
-	if cfg == 2 && st.TotalBytes() > 20000 {
+	if cfg == 2 && contentLen > 64 {
 		cfg = 1 // the NodeReifier configuration re-reads whole sub-trees per Read call: keep it to small files
 	}
 	ls := st.LinkSystemCfg(true, cfg == 1, cfg == 2)
@@ -101,7 +101,7 @@ func checkReadBack(c *mon.Case, st *store.Store, root cid.Cid, content []byte, w
 			c.Violation("C01|filesize|wrong", "declared FileSize %d, content length %d", rn.FS.GetFilesize(), len(content))
 		}
 	}
-	for name, n := range openPaths(c, st, root) {
+	for name, n := range openPaths(c, st, root, len(content)) {
 		name, n := name, n
 		if n.Kind() != ipld.Kind_Bytes {
 			c.Violation("C01|kind|"+name, "file node kind is %v", n.Kind())
